@@ -5,6 +5,8 @@ mod c02;
 mod c03;
 mod dirgen;
 mod c04;
+mod c06;
+mod dmg;
 mod c08;
 mod cpdec;
 mod c10;
@@ -27,6 +29,13 @@ fn main() {
         std::process::exit(2);
     }
     let prop = args[1].clone();
+    if prop == "dmgworker" {
+        std::panic::set_hook(Box::new(|info| {
+            util::record_panic(info);
+        }));
+        dmg::worker_main();
+        return;
+    }
     let mut seed = 1u64;
     let mut tier = Tier::Quick;
     let mut out = PathBuf::from("work/out");
@@ -62,12 +71,14 @@ fn main() {
         util::record_panic(info);
     }));
     let mut ctx = Ctx::new(seed, tier, &out, only_case);
+    let res = std::panic::catch_unwind(std::panic::AssertUnwindSafe(|| {
     match prop.as_str() {
         "c13" => c13::run(&mut ctx),
         "c01" => c01::run(&mut ctx),
         "c02" => c02::run(&mut ctx),
         "c03" => c03::run(&mut ctx),
         "c04" => c04::run(&mut ctx),
+        "c06" => c06::run(&mut ctx),
         "c15" => c15::run(&mut ctx),
         "c08" => c08::run(&mut ctx),
         "c10" => c10::run(&mut ctx),
@@ -77,6 +88,11 @@ fn main() {
             eprintln!("unknown property {prop}");
             std::process::exit(2);
         }
+    }
+    }));
+    if res.is_err() {
+        eprintln!("harness bug: uncaught {}", util::take_panic());
+        std::process::exit(3);
     }
     ctx.finish();
 }
